@@ -42,7 +42,11 @@ META = {
         "packable float type is compared bit-exactly with an independent codec (harness/props/c08_floats.py: formats "
         "written down from the APFloat definitions, exact rational rounding) through unpack / iter_unpack / pack / "
         "pack_into / FloatAttr / DenseArrayBase.from_list / DenseIntOrFPElementsAttr.from_list / dense and array "
-        "literals with hexadecimal elements / raw dense strings."
+        "literals with hexadecimal elements / raw dense strings.  Same parameters in every argument form a constructor "
+        "accepts (float | FloatData | payload of another attribute | width for the type, int | IntAttr, str | StringAttr | "
+        "ArrayAttr, int | IntAttr shapes, list | tuple data) must give one value with one hash.  Cross-interpreter leg: attributes "
+        "hashed and pickled by the check are loaded in a child interpreter with another string-hash seed and compared with the "
+        "attributes built there from the same recipes (equal => equal hashes, mutual set / dict membership)."
     ),
     "technique": "Lean 4 proofs over a tree model of attribute values + all-pairs differential correspondence with real attributes",
     "level_note": (
@@ -65,7 +69,11 @@ META = {
         "PyFloat_Pack2); the APFloat-described reduced formats (tf32, f8*, f6*, f4*) carry NaN as the canonical math.nan, so any NaN pattern "
         "of the format is admitted there and nothing is demanded of NaN / zero parameters where the format has no NaN / no zero; f80 / f128 "
         "are not packable (no codec). Sequence parameters are handed over as list / tuple / generator / ArrayAttr where the constructor "
-        "converts its argument (TupleType, FusedLoc, ArrayAttr)."
+        "converts its argument (TupleType, FusedLoc, ArrayAttr). Argument forms: only forms named in the constructor's own signature "
+        "(union-typed parameters of the builtin dialect) count as 'the same parameters'. Cross-interpreter leg: an attribute loaded from a "
+        "pickle in another interpreter is an attribute of that interpreter, so 'equal attributes have equal hashes' is demanded of it and "
+        "the attribute built there; NOT demanded: that a pickle loads at all or loads to an equal value (counted: DenseResourceAttr, "
+        "dynamically created UnregisteredAttr classes). One child process per run, seeds proven different by a probe string."
     ),
     "rule": (
         "A case is an ordered pair (i<j) of attribute (or op) objects inside one group; every recipe of a group is "
@@ -87,13 +95,18 @@ META = {
         "bucket; operations differing only in such a pair as attribute / property / arith.constant value / swapped across two keys / "
         "result type. Float codec leg: per packable float type all bit patterns up to 8 bits (16 bits: the whole exponent-all-ones "
         "region + corners + sample in quick, all in thorough), parameters = NaNs of both signs with quiet / signalling / high / low-only "
-        "payloads, infinities, zeros, rounding midpoints and neighbours, overflow thresholds, random. Sequence-argument kinds family."
+        "payloads, infinities, zeros, rounding midpoints and neighbours, overflow thresholds, random. Sequence-argument kinds family. "
+        "Argument-form families: per float type class the parameters 0.1, -1/3, an f32 rounding midpoint, 1e9+1, -0.0, a NaN with payload, "
+        "each as float / FloatData / f64 attribute payload / type-as-width; integers (incl. values normalised by the type) as int / IntAttr / width; "
+        "IntegerType, SymbolRefAttr, shaped types, UnregisteredAttr, dense from_list in their alternative forms; random groups re-form one sub-recipe. "
+        "Pickle leg: every (recipe, pickle before hashing, pickle after hashing) shipped to the child counts as one non-trivial case."
     ),
     "trusted_base": [
         "correspondence harness harness/props/c08.py (encoder of attribute objects into model terms; all-pairs differential)",
         "hand-written Lean model XdslModel/AttrValue.lean of dataclass eq/hash, FloatData (fixed) and OperationInfo",
         "assumption: no accidental SipHash / tuple-hash collisions (Python-only collisions are counted, never failed)",
         "independent float codec harness/props/c08_floats.py (format table by MLIR type name, exact rational rounding, NaN contract per family)",
+        "CPython pickle and PYTHONHASHSEED handling (cross-interpreter leg: one child process, same xDSL tree on its path)",
     ],
     "assumptions": [
         "CPython: dataclass(frozen=True, eq=True) __eq__ is class identity + field-tuple ==; __hash__ is hash of the field tuple",
@@ -308,7 +321,105 @@ def build(r: Any):
         return cls(r[1], bool(r[2]), bool(r[3]), r[4])
     if k == "parse":
         return parse_attr_fresh(r[1])
+    if k == "via":
+        return build_via(r[1], r[2])
     raise core.InfraError(f"unknown recipe {r!r}")
+
+
+# the alternative forms in which a constructor of the builtin dialect accepts the SAME parameter
+# (`float | FloatData`, `int | IntAttr`, `int | IntegerType` widths, `str | StringAttr`, shapes of
+# `int | IntAttr`, list / tuple data): recipe ["via", form, r] has the parameters of recipe r.
+ARG_FORMS: dict[str, tuple[str, ...]] = {
+    "float": ("fdata", "f64value", "width", "fdata+width"),
+    "int": ("intattr", "width", "intattr+width"),
+    "i": ("intattr",),
+    "symref": ("strattr", "arrayattr"),
+    "tensor": ("intattr", "gen"),
+    "vector": ("intattr", "gen"),
+    "memref": ("intattr", "gen", "arrayattr"),
+    "unreg": ("attrs",),
+    "densearr": ("tuple",),
+    "dense": ("tuple",),
+}
+FLOAT_WIDTH_OF = {"f16": 16, "f32": 32, "f64": 64, "f80": 80, "f128": 128,
+                  "Float16Type": 16, "Float32Type": 32, "Float64Type": 64, "Float80Type": 80, "Float128Type": 128}
+
+
+def forms_of(r: Any) -> list[str]:
+    """the argument forms applicable to recipe r"""
+    k = r[0]
+    out = []
+    for f in ARG_FORMS.get(k, ()):
+        if k == "float" and "width" in f and (r[2][-1] if r[2][0] == "fty" else r[2][0]) not in FLOAT_WIDTH_OF:
+            continue
+        if k == "int" and "width" in f and not (r[2][0] == "i" and r[2][2] == "signless"):
+            continue
+        out.append(f)
+    return out
+
+
+def build_via(form: str, r: Any):
+    from xdsl.dialects import builtin as b
+
+    k = r[0]
+    if k == "float":
+        x = float_of(int(r[1], 16))
+        ty: Any = build(r[2])
+        if "width" in form:
+            ty = FLOAT_WIDTH_OF[r[2][-1] if r[2][0] == "fty" else r[2][0]]
+        if form.startswith("fdata"):
+            return b.FloatAttr(b.FloatData(x), ty)
+        if form == "f64value":   # the payload object of another (f64) float attribute, as a width-changing fold hands it over
+            return b.FloatAttr(b.FloatAttr(x, b.Float64Type()).value, ty)
+        if form == "width":
+            return b.FloatAttr(x, ty)
+    if k == "int":
+        v: Any = b.IntAttr(r[1]) if form.startswith("intattr") else r[1]
+        t: Any = r[2][1] if "width" in form else build(r[2])
+        return b.IntegerAttr(v, t)
+    if k == "i" and form == "intattr":
+        return b.IntegerType(b.IntAttr(r[1]), b.SignednessAttr(getattr(b.Signedness, r[2].upper())))
+    if k == "symref":
+        if form == "strattr":
+            return b.SymbolRefAttr(b.StringAttr(r[1]), [b.StringAttr(x) for x in r[2]])
+        if form == "arrayattr":
+            return b.SymbolRefAttr(r[1], b.ArrayAttr([b.StringAttr(x) for x in r[2]]))
+    if k in ("tensor", "vector", "memref"):
+        cls = {"tensor": b.TensorType, "vector": b.VectorType, "memref": b.MemRefType}[k]
+        if form == "intattr":
+            return cls(build(r[2]), [b.IntAttr(d) for d in r[1]])
+        if form == "gen":
+            return cls(build(r[2]), (d for d in r[1]))
+        if form == "arrayattr" and k == "memref":
+            return cls(build(r[2]), b.ArrayAttr([b.IntAttr(d) for d in r[1]]))
+    if k == "unreg" and form == "attrs":
+        cls = b.UnregisteredAttr.with_name_and_type(r[1], bool(r[2]))
+        return cls(b.StringAttr(r[1]), b.IntAttr(int(bool(r[2]))), b.IntAttr(int(bool(r[3]))), b.StringAttr(r[4]))
+    if k in ("densearr", "dense") and form == "tuple":
+        ty = build(r[1])
+        vals = tuple(float_of(int(v, 16)) if isinstance(v, str) else v for v in r[2])
+        return (b.DenseArrayBase if k == "densearr" else b.DenseIntOrFPElementsAttr).from_list(ty, vals)
+    raise core.InfraError(f"unknown argument form {form!r} for recipe {r!r}")
+
+
+def via_nodes(r: Any) -> list[Any]:
+    """all argument-form wrappers inside a recipe, innermost first"""
+    out: list[Any] = []
+    if isinstance(r, list):
+        for x in r:
+            out += via_nodes(x)
+        if len(r) == 3 and r[0] == "via":
+            out.append(r)
+    return out
+
+
+def canon(r: Any) -> Any:
+    """the parameters a recipe denotes: argument-form wrappers removed at every depth"""
+    if isinstance(r, list):
+        if len(r) == 3 and r[0] == "via":
+            return canon(r[2])
+        return [canon(x) for x in r]
+    return r
 
 
 _FLOAT_TYPES: list[tuple[str, Any]] | None = None
@@ -521,6 +632,7 @@ _BUILT_FLOATS: dict[str, list[Any]] = {}
 
 
 def float_history_key(r: Any) -> str | None:
+    r = canon(r)
     if r[0] == "float":
         return str(r[2])
     if r[0] == "floattext":
@@ -558,6 +670,8 @@ def history_before(r: Any) -> list[Any]:
 
 
 def constructor_of(r: Any) -> str:
+    if r[0] == "via":
+        r = r[2]
     return CONSTRUCTOR_OF.get(r[0], "xdsl.ir.core.Attribute")
 
 
@@ -782,6 +896,8 @@ def diagnose(a: Any, b: Any, what: str, nenc: Encoder) -> tuple[str, str]:
 
 def sub_recipes(r: Any) -> list[Any]:
     k = r[0]
+    if k == "via":
+        return []
     if k in ("array", "tuple", "fusedloc"):
         return list(r[1])
     if k == "dict":
@@ -872,6 +988,7 @@ def eval_group(ctx: core.Ctx, label: str, recipes: list[Any], batch: Batch) -> N
         return
     ctx.count(f"group.{label}")
     ctx.count("objects", n)
+    brecs = [canon(r) for r in recs]   # the parameters: argument-form wrappers removed
     # attributes are immutable, hashable values: no mutable payload containers, hash()/== never raise
     broken: set[int] = set()
     for i, o in enumerate(objs):
@@ -912,7 +1029,7 @@ def eval_group(ctx: core.Ctx, label: str, recipes: list[Any], batch: Batch) -> N
     # encoding: independent of anything built before in this process
     XP: list[Any] = [None] * n
     for i in range(n):
-        xp = expected_float(recs[i]) if recs[i][0] in ("float", "floattext") else None
+        xp = expected_float(brecs[i]) if brecs[i][0] in ("float", "floattext") else None
         if xp is None:
             continue
         ty, want = xp
@@ -935,9 +1052,9 @@ def eval_group(ctx: core.Ctx, label: str, recipes: list[Any], batch: Batch) -> N
     IXP: list[Any] = [None] * n
     IBAD: set[int] = set()
     for i in range(n):
-        if recs[i][0] not in ("float", "floattext") or twin[i] < i:
+        if brecs[i][0] not in ("float", "floattext") or twin[i] < i:
             continue
-        ind = independent_float(recs[i])
+        ind = independent_float(brecs[i])
         if ind is None:
             continue
         ty, fmt, xb, enc, dec = ind
@@ -982,7 +1099,7 @@ def eval_group(ctx: core.Ctx, label: str, recipes: list[Any], batch: Batch) -> N
                 return p == q and hash(p) != hash(q)
         else:
             def still(x, y):
-                return x == y and not (build(x) == build(y))
+                return canon(x) == canon(y) and not (build(x) == build(y))
         ra, rb = shrink_pair(ra, rb, still)
         try:
             p, q = build(ra), build(rb)
@@ -1028,6 +1145,25 @@ def eval_group(ctx: core.Ctx, label: str, recipes: list[Any], batch: Batch) -> N
                 ctx.fail(FLOATATTR_INIT, sig, pair_case(recs[i], recs[j], {"check": "equal-but-distinct-parameters"}),
                          "two float attributes of one type compare equal although the format of the type keeps their parameters apart "
                          "(independent codec)", {"a": describe(objs[i]), "b": describe(objs[j]), "must_hold_a": hx(x), "must_hold_b": hx(y)}, "a != b")
+            if j != twin[i] and brecs[i] == brecs[j] and recs[i] != recs[j] and i < twin[i] and j < twin[j]:
+                # the same parameters handed to the constructor in two of the forms its signature accepts
+                ctx.count("same_parameters_two_argument_forms")
+                if not E[i][j] or not E[j][i] or (H[i] != H[j] and i not in broken and j not in broken):
+                    ra, rb = recs[i], recs[j]
+                    for node in via_nodes(ra) + via_nodes(rb):   # innermost re-formed parameter that shows it by itself
+                        try:
+                            p_, q_ = build(node[2]), build(node)
+                            if not (p_ == q_) or hash(p_) != hash(q_):
+                                ra, rb = node[2], node
+                                break
+                        except Exception:  # noqa: BLE001
+                            continue
+                    ctx.fail(constructor_of(rb), "the same parameter in two accepted argument forms gives unequal attributes",
+                             pair_case(ra, rb, {"check": "unequal-same-construction"}),
+                             "two attributes built from the same parameters, handed over in two argument forms the constructor accepts "
+                             "(float | FloatData, int | IntAttr, width | type, str | StringAttr, ...), are not equal / hash differently",
+                             {"a": describe(objs[i]), "b": describe(objs[j]), "eq": E[i][j], "hash_eq": H[i] == H[j],
+                              "payload_a": NT[i], "payload_b": NT[j]}, "equal, equal hashes (same construction parameters)")
             if i in broken or j in broken:
                 continue
             if E[i][j] and H[i] != H[j] and j != twin[i]:
@@ -1210,6 +1346,7 @@ def fixed_groups() -> list[tuple[str, list[Any]]]:
               + [["array", q, kd] for q in seqs for kd in ("list", "tuple", "gen")]
               + [["fusedloc", q, kd] for q in locs for kd in ("tuple", "list", "array", "gen")]
               + [["fn", q, q] for q in seqs] + [["fnattrs", q, q] for q in seqs]))
+    g += argument_form_groups()
     # unregistered attributes: class factory called once per build
     g.append(("unregistered", [["unreg", "foo.bar", 0, 0, "1"], ["unreg", "foo.bar", 0, 0, "2"], ["unreg", "foo.baz", 0, 0, "1"], ["unreg", "foo.bar", 1, 0, "1"],
                                ["unreg", "foo.bar", 0, 1, "1"], ["unreg", "foo.bar", 0, 0, ""], ["parse", "#foo.bar<1>"], ["parse", "!foo.bar<1>"],
@@ -1227,6 +1364,39 @@ def fixed_groups() -> list[tuple[str, list[Any]]]:
              "#gpu<dim x>", "#gpu<dim y>", "#test.dyn<1>", "dense_resource<r> : tensor<1xi8>"]
     for k in range(0, len(texts), 26):
         g.append((f"parse.builtin_texts.{k // 26}", [["parse", t] for t in texts[k:k + 26]]))
+    return g
+
+
+# parameters that are NOT representable in the narrow float types (0.1, -1/3, a rounding midpoint of f32, 1e9 + 1),
+# next to -0.0 and a NaN with payload
+ARGFORM_FLOAT_BITS = [0x3FB999999999999A, 0xBFD5555555555555, 0x3FF0000010000000, 0x41CDCD6500400000, 1 << 63, 0x7FF8000000000001]
+
+
+def with_forms(r: Any) -> list[Any]:
+    return [r] + [["via", f, r] for f in forms_of(r)]
+
+
+def argument_form_groups() -> list[tuple[str, list[Any]]]:
+    """the same parameter handed to a constructor in every form its signature accepts: one value, one hash"""
+    g: list[tuple[str, list[Any]]] = []
+    # (floats: one group per float type class in float_type_groups)
+    ints: list[Any] = []
+    for w, sg, vs in ((8, "signless", (0, -1, 255, 127, -128)), (8, "unsigned", (0, 255)), (1, "signless", (0, 1, -1)),
+                      (32, "signless", (0, -1, (1 << 32) - 1, 1 << 31)), (64, "signed", (-1, (1 << 63) - 1))):
+        ints += [x for v in vs for x in with_forms(["int", v, ["i", w, sg]])]
+    ints += [x for v in (0, -1, 1 << 70) for x in with_forms(["int", v, ["index"]])]
+    for k in range(0, len(ints), 40):
+        g.append(("ctor.argument_forms.int", ints[k:k + 40]))
+    other: list[Any] = []
+    for r in ([["i", w, sg] for w in (1, 8, 32) for sg in SIGN]
+              + [["symref", "a", []], ["symref", "a", ["b"]], ["symref", "a", ["b", "c"]], ["symref", "é", ["Ā"]]]
+              + [[c, sh, ["f32"]] for c in ("tensor", "vector", "memref") for sh in ([], [2], [2, 3])] + [["tensor", [-1, 2], ["f32"]]]
+              + [["unreg", "foo.bar", 0, 0, "1"], ["unreg", "foo.bar", 1, 0, "1"], ["unreg", "foo.bar", 0, 1, "<1>"]]
+              + [["densearr", ["f32"], [hx(0x3FB999999999999A), hx(1 << 63)]], ["densearr", ["i", 8, "signless"], [1, -1]],
+                 ["dense", ["tensor", [2], ["f32"]], [hx(0x3FB999999999999A), hx(1 << 63)]], ["dense", ["tensor", [2], ["i", 8, "signless"]], [1, -1]]]):
+        other += with_forms(r)
+    for k in range(0, len(other), 40):
+        g.append(("ctor.argument_forms.other", other[k:k + 40]))
     return g
 
 
@@ -1291,6 +1461,8 @@ def float_type_groups(thorough: bool) -> list[tuple[str, list[Any]]]:
         except Exception:  # noqa: BLE001
             pass
         dense_groups.append((f"floattype.dense.{tn}", d))
+        # the float parameter as Python float / FloatData / payload of an f64 attribute / with the type given as a width
+        dense_groups.append((f"floattype.argument_forms.{tn}", [x for b in ARGFORM_FLOAT_BITS for x in with_forms(["float", hx(b), tr])]))
     # zeros of all types interleaved: +0 of T1, -0 of T2, ... then the opposite signs
     mix = [x for pair in zip(inter_a[0::2], inter_b[1::2]) for x in pair] + [x for pair in zip(inter_b[0::2], inter_a[1::2]) for x in pair]
     for k in range(0, len(mix), 40):
@@ -1394,11 +1566,46 @@ def mutate(rng, r: Any) -> Any:
     return rng.choice(LEAF_POOL)
 
 
+def reform(rng, r: Any) -> Any:
+    """the same parameters with one sub-recipe (any depth) handed over in another argument form"""
+    spots: list[tuple[int, ...]] = []
+
+    def walk(x: Any, path: tuple[int, ...]) -> None:
+        if not isinstance(x, list) or not x:
+            return
+        if isinstance(x[0], str) and x[0] != "via" and forms_of_safe(x):
+            spots.append(path)
+        for i, y in enumerate(x):
+            if isinstance(y, list):
+                walk(y, path + (i,))
+
+    walk(r, ())
+    if not spots:
+        return r
+    path = rng.choice(spots)
+
+    def put(x: Any, path: tuple[int, ...]) -> Any:
+        if not path:
+            return ["via", rng.choice(forms_of_safe(x)), x]
+        return [put(y, path[1:]) if i == path[0] else y for i, y in enumerate(x)]
+
+    return put(r, path)
+
+
+def forms_of_safe(x: Any) -> list[str]:
+    try:
+        return forms_of(x) if x[0] in ARG_FORMS and len(x) >= 3 else []
+    except Exception:  # noqa: BLE001
+        return []
+
+
 def random_group(rng, size: int) -> list[Any]:
     out: list[Any] = []
     while len(out) < size:
         r = rand_recipe(rng, rng.randint(0, 3))
         out.append(r)
+        if rng.random() < 0.3:
+            out.append(reform(rng, r))
         m = r
         for _ in range(rng.randint(1, 3)):
             m = mutate(rng, m)
@@ -2110,6 +2317,192 @@ def float_codec_leg(ctx: core.Ctx, quick: bool) -> None:
 # run / replay
 # ---------------------------------------------------------------------------------------------
 
+# ---------------------------------------------------------------------------------------------
+# attributes as values across interpreters: hashed, pickled here; unpickled in a child process whose
+# str/bytes hashes are salted differently, next to the same attributes built there from the recipes
+# ---------------------------------------------------------------------------------------------
+
+PICKLE_SIG = "equal attributes hash differently after unpickling in another interpreter"
+PICKLE_PROBE = "C08 hash-seed probe"
+
+
+def pickle_items(recipes: list[Any], counts: dict[str, int]) -> list[tuple[Any, bytes | None, bytes]]:
+    """(recipe, pickle taken before the check hashed the attribute, pickle taken after hashing and keying a dict/set)"""
+    import pickle
+
+    items: list[tuple[Any, bytes | None, bytes]] = []
+    seen: set[str] = set()
+    for r in recipes:
+        key = repr(r)
+        if key in seen:
+            continue
+        seen.add(key)
+        try:
+            a = build(r)
+        except core.InfraError:
+            raise
+        except Exception:  # noqa: BLE001
+            continue
+        try:
+            cold: bytes | None = pickle.dumps(a)
+        except Exception as e:  # noqa: BLE001  (not picklable: dynamically created classes, ...)
+            counts["pickle.not_picklable." + type(a).__name__] = counts.get("pickle.not_picklable." + type(a).__name__, 0) + 1
+            continue
+        try:
+            hash(a)
+            assert a in {a} and {a: 1}[a] == 1
+            warm = pickle.dumps(a)
+        except Exception:  # noqa: BLE001  (unhashable: reported by the group checks)
+            continue
+        items.append((r, cold, warm))
+    return items
+
+
+def hash_site(a: Any, b: Any) -> str:
+    """the __hash__ at fault for a == b with different hashes: descend to the innermost sub-objects that show it,
+    name the class in the MRO that defines the hash they use"""
+    for _ in range(80):
+        fa, fb = fields_of(a), fields_of(b)
+        nxt = None
+        if fa is not None and fb is not None and len(fa) == len(fb):
+            for x, y in zip(fa, fb):
+                try:
+                    if x == y and hash(x) != hash(y) and (fields_of(x) is not None or is_floatdata(x)):
+                        nxt = (x, y)
+                        break
+                except Exception:  # noqa: BLE001
+                    continue
+        if nxt is None:
+            break
+        a, b = nxt
+    for c in type(a).__mro__:
+        if "__hash__" in vars(c):
+            return f"{qual(c)}.__hash__"
+    return f"{qual(type(a))}.__hash__"
+
+
+def pickle_child(inp: str, out: str) -> None:
+    """runs in the child interpreter (other PYTHONHASHSEED): load, rebuild from the recipe, compare"""
+    import json
+    import pickle
+
+    with open(inp, "rb") as f:
+        items = pickle.load(f)
+    res: dict[str, Any] = {"probe": hash(PICKLE_PROBE), "n": len(items), "bad": [], "counts": {}}
+    cnt = res["counts"]
+    nenc = Encoder(False)
+    for idx, (r, cold, warm) in enumerate(items):
+        try:
+            fresh = build(r)
+        except Exception as e:  # noqa: BLE001
+            cnt["child_build_rejected"] = cnt.get("child_build_rejected", 0) + 1
+            continue
+        for tag, blob in (("pickled-before-hashing", cold), ("pickled-after-hashing", warm)):
+            try:
+                l = pickle.loads(blob)
+            except Exception as e:  # noqa: BLE001
+                cnt["not_unpicklable." + type(fresh).__name__] = cnt.get("not_unpicklable." + type(fresh).__name__, 0) + 1
+                continue
+            try:
+                eq = bool(l == fresh) and bool(fresh == l)
+            except Exception:  # noqa: BLE001
+                eq = False
+            if not eq:   # pickling need not round-trip to an equal value for the property; counted only
+                cnt["unpickled_not_equal." + type(fresh).__name__] = cnt.get("unpickled_not_equal." + type(fresh).__name__, 0) + 1
+                continue
+            cnt["equal_pairs"] = cnt.get("equal_pairs", 0) + 1
+            try:
+                hl, hf = hash(l), hash(fresh)
+                member = (l in {fresh}) and (fresh in {l}) and {l: 1}.get(fresh) == 1 and {fresh: 1}.get(l) == 1
+            except Exception as e:  # noqa: BLE001
+                res["bad"].append({"i": idx, "when": tag, "error": core.exc_name(e)})
+                continue
+            if hl != hf or not member:
+                site = hash_site(l, fresh)
+                res["bad"].append({"i": idx, "when": tag, "hash_eq": hl == hf, "set_dict_member": member, "site": site,
+                                   "a": describe(fresh), "payload": safe_term(nenc, fresh)})
+    with open(out, "w", encoding="utf-8") as f:
+        json.dump(res, f)
+
+
+class PickleLeg:
+    """parent side: start the child early, collect later (the child runs while the other legs do)"""
+
+    def __init__(self, recipes: list[Any], seed: int):
+        import os
+        import pickle
+        import subprocess
+        import sys
+        import tempfile
+
+        self.counts: dict[str, int] = {}
+        self.items = pickle_items(recipes, self.counts)
+        self.dir = tempfile.mkdtemp(prefix="c08_pickle_")
+        self.inp, self.out = os.path.join(self.dir, "in.pkl"), os.path.join(self.dir, "out.json")
+        with open(self.inp, "wb") as f:
+            pickle.dump(self.items, f)
+        own = os.environ.get("PYTHONHASHSEED", "")
+        self.seed = seed if str(seed) != own else seed + 1
+        env = dict(os.environ, PYTHONHASHSEED=str(self.seed), PYTHONDONTWRITEBYTECODE="1")
+        env["PYTHONPATH"] = os.pathsep.join([str(core.REPO), str(core.VERIF / "harness")] + [x for x in env.get("PYTHONPATH", "").split(os.pathsep) if x])
+        self.proc = subprocess.Popen([sys.executable, "-c", "import sys; from props import c08; c08.pickle_child(sys.argv[1], sys.argv[2])", self.inp, self.out],
+                                     env=env, stdout=subprocess.PIPE, stderr=subprocess.STDOUT, text=True)
+
+    def collect(self, timeout: float) -> dict[str, Any]:
+        import json
+        import shutil
+        import subprocess
+
+        try:
+            log, _ = self.proc.communicate(timeout=timeout)
+        except subprocess.TimeoutExpired:
+            self.proc.kill()
+            raise core.InfraError("C08 pickle leg: child interpreter did not finish")
+        try:
+            if self.proc.returncode != 0:
+                raise core.InfraError(f"C08 pickle leg: child interpreter failed ({self.proc.returncode}): {log[-1500:]}")
+            with open(self.out, encoding="utf-8") as f:
+                res = json.load(f)
+        finally:
+            shutil.rmtree(self.dir, ignore_errors=True)
+        if res["probe"] == hash(PICKLE_PROBE):
+            raise core.InfraError("C08 pickle leg: the child interpreter has the same string hash seed as the check")
+        return res
+
+
+def pickle_recipes(ctx: core.Ctx, n_random: int, n_corpus: int, per_group: int | None = None) -> list[Any]:
+    recs: list[Any] = []
+    for label, rs in fixed_groups():   # every fixed family: all texts (dialect attributes), a sample of the enumerated payload families
+        if per_group is None or label.startswith("parse.") or len(rs) <= per_group:
+            recs += rs
+        else:
+            recs += rs[:per_group // 2] + ctx.rng.sample(rs[per_group // 2:], per_group - per_group // 2)
+    for _ in range(n_random):
+        recs.append(rand_recipe(ctx.rng, ctx.rng.randint(1, 3)))
+    if n_corpus:
+        texts = [t for ts in corpus_texts(ctx, 120).values() for t in ts]
+        ctx.rng.shuffle(texts)
+        recs += [["parse", t] for t in texts[:n_corpus]]
+    return recs
+
+
+def pickle_leg_finish(ctx: core.Ctx, leg: PickleLeg, timeout: float) -> None:
+    res = leg.collect(timeout)
+    ctx.count("pickle.attributes_shipped", len(leg.items))
+    for k, v in list(leg.counts.items()) + [("pickle.child." + k, v) for k, v in res["counts"].items()]:
+        ctx.count(k, v)
+    ctx.ev(res["counts"].get("equal_pairs", 0))
+    for it in leg.items:
+        ctx.nt(("pickle", repr(it[0])))
+    for b in res["bad"]:
+        r = leg.items[b["i"]][0]
+        ctx.fail(b.get("site", "xdsl.ir.core.Attribute.__hash__"), PICKLE_SIG,
+                 {"kind": "attr_pickle", "a": r, "child_hashseed": leg.seed, "when": b["when"]},
+                 "an attribute that was hashed (dict / set key) and pickled in one interpreter, loaded in an interpreter with another string hash "
+                 "seed, is == to the attribute built there from the same parameters but hashes differently: set / dict lookups miss",
+                 {k: v for k, v in b.items() if k != "i"}, "hash(loaded) == hash(built) and each is found in a set / dict keyed by the other")
+
+
 def unregistered_history_leg(ctx: core.Ctx, n_other: int) -> None:
     """The same unregistered attribute/type text parsed in two fresh Contexts must give equal values
     whatever happened in between -- in particular after the process has seen many other
@@ -2153,6 +2546,7 @@ def run(ctx: core.Ctx) -> None:
     for label, recs in fixed_groups():
         eval_group(ctx, label, recs, batch)
     flush()
+    pleg = PickleLeg(pickle_recipes(ctx, 100 if quick else 1500, 0, 8 if quick else None), 1 + ctx.rng.randrange(1 << 30))
     ctx.count("float_type_classes", len(builtin_float_types()))
     for label, recs in float_type_groups(not quick):
         eval_group(ctx, label, recs, batch)
@@ -2175,6 +2569,7 @@ def run(ctx: core.Ctx) -> None:
         if len(batch.lines) > 300_000:
             flush()
     flush()
+    pickle_leg_finish(ctx, pleg, 600)
     for label, recs in corpus_groups(ctx, 350 if quick else None, 2600 if quick else 40000):
         if ctx.time_left() < (15 if quick else 60):
             ctx.count("corpus_groups_skipped_for_time")
@@ -2306,14 +2701,15 @@ def replay(ctx: core.Ctx, body: dict) -> int:
         except Exception as e:  # noqa: BLE001
             print(f"      == raises {core.exc_name(e)}: {e}")
             bad = True
-        xp = expected_float(case["a"]) if case["a"][0] in ("float", "floattext") else None
+        ca = canon(case["a"])
+        xp = expected_float(ca) if ca[0] in ("float", "floattext") else None
         if xp is not None:
             ty, want = xp
             have = a.value.data
             print(f"      held value bits {hx(bits_of(have))} (type encoding {type_encoding(ty, have)}); "
                   f"type.unpack(type.pack(parameter)) bits {hx(bits_of(want))} (type encoding {type_encoding(ty, want)})")
             bad |= bits_of(have) != bits_of(want)
-        ind = independent_float(case["a"]) if case["a"][0] in ("float", "floattext") else None
+        ind = independent_float(ca) if ca[0] in ("float", "floattext") else None
         if ind is not None:
             ty, fmt, xb, enc, dec = ind
             site, sig, obs = blame_float(ty, fmt, xb, enc, bits_of(a.value.data))
@@ -2324,6 +2720,21 @@ def replay(ctx: core.Ctx, body: dict) -> int:
                 bad |= not dec.admits(bits_of(a.value.data))
             got = own_pack(ty, float_of(xb))
             bad |= not ((isinstance(got, str) and enc.raises == got) or (isinstance(got, int) and enc.raises is None and enc.admits(got)))
+        print("property", "FAILS" if bad else "holds", "on this case")
+        return 1 if bad else 0
+    if kind == "attr_pickle":
+        leg = PickleLeg([case["a"]], int(case.get("child_hashseed", 4242)))
+        print(f"attribute a: recipe={case['a']}  printed={describe(build(case['a']))}")
+        print(f"hashed, used as dict / set key and pickled in this interpreter; loaded in a child interpreter with PYTHONHASHSEED={leg.seed}, "
+              "next to the attribute built there from the same recipe")
+        if not leg.items:
+            print("the attribute cannot be built / pickled here")
+            return 0
+        res = leg.collect(300)
+        print("child:", res["counts"])
+        for b_ in res["bad"]:
+            print("      ", {k: v for k, v in b_.items() if k != "i"})
+            bad = True
         print("property", "FAILS" if bad else "holds", "on this case")
         return 1 if bad else 0
     if kind in ("op_pair", "op_triple"):
@@ -2367,16 +2778,19 @@ def replay(ctx: core.Ctx, body: dict) -> int:
                     e, h = objs[x] == objs[y], hash(objs[x]) == hash(objs[y])
                     same = safe_term(nenc, objs[x]) == safe_term(nenc, objs[y])
                     print(f"{x} == {y}: {e}; {y} == {x}: {objs[y] == objs[x]}; hashes equal: {h}; payloads identical: {same}")
-                    bad |= (e and not h) or (e and not same) or (case[x] == case[y] and not (e and h)) or (e != (objs[y] == objs[x]))
-                    xa = expected_float(case[x]) if case[x][0] in ("float", "floattext") else None
-                    xb = expected_float(case[y]) if case[y][0] in ("float", "floattext") else None
+                    if canon(case[x]) == canon(case[y]) and case[x] != case[y]:
+                        print(f"      {x} and {y} are built from the same parameters (argument forms: {[n[1] for n in via_nodes(case[x])]} / {[n[1] for n in via_nodes(case[y])]})")
+                    bad |= (e and not h) or (e and not same) or (canon(case[x]) == canon(case[y]) and not (e and h)) or (e != (objs[y] == objs[x]))
+                    cx, cy = canon(case[x]), canon(case[y])
+                    xa = expected_float(cx) if cx[0] in ("float", "floattext") else None
+                    xb = expected_float(cy) if cy[0] in ("float", "floattext") else None
                     if xa is not None and xb is not None and qual(type(xa[0])) == qual(type(xb[0])):
                         ea, eb = type_encoding(xa[0], xa[1]), type_encoding(xb[0], xb[1])
                         print(f"      parameters encode in the type as {ea} / {eb}; held values encode as "
                               f"{type_encoding(xa[0], objs[x].value.data)} / {type_encoding(xb[0], objs[y].value.data)}")
                         bad |= e and (ea != eb or bits_of(xa[1]) != bits_of(xb[1]))
-                    ia = independent_float(case[x]) if case[x][0] in ("float", "floattext") else None
-                    ib = independent_float(case[y]) if case[y][0] in ("float", "floattext") else None
+                    ia = independent_float(cx) if cx[0] in ("float", "floattext") else None
+                    ib = independent_float(cy) if cy[0] in ("float", "floattext") else None
                     if ia is not None and ib is not None and ia[1].name == ib[1].name and ia[4] is not None and ib[4] is not None:
                         da, db = ia[4].bits, ib[4].bits
                         print(f"      independent codec of {ia[1].name}: the attributes must hold {hx(da) if da is not None else 'a NaN'} / {hx(db) if db is not None else 'a NaN'}; "
